@@ -177,3 +177,14 @@ Fixpoint engine_bind (tb : table) (rs : list reg) : table * option err :=
 (* Server.AddRoutes(rs, WithPrefix(g)) replaces every path by path.Join(g, path) (server.go:210-223,
    Spec.with_prefix); addRoutes appends the group; start binds all groups on the server's router *)
 Definition engine_register (gs : list group) : table * option err := engine_bind [] (engine_routes gs).
+
+(* ---- histories: registrations and requests in any order on one router ---- *)
+(* Handle mutates pr.trees; ServeHTTP / Search / methodsAllowed only read it and keep no other state *)
+Inductive hop := OReg (m : string) (p : list N) (id : nat) | OReq (m : string) (p : list N).
+Inductive hres := HErr (e : option err) | HOut (o : outcome).
+Fixpoint run_ops (tb : table) (ops : list hop) : list hres :=
+  match ops with
+  | [] => []
+  | OReg m p id :: rest => let (tb', e) := handle tb m p id in HErr e :: run_ops tb' rest
+  | OReq m p :: rest => HOut (route_req tb m p) :: run_ops tb rest
+  end.
